@@ -119,7 +119,7 @@ pub fn run(ctx: &Ctx) {
     ctx.set_rule("generated: k in 1..=40 (2000 thorough), n from 0 across k, 4k, 4k+1 up to 50k and beyond, RNG = generated script of extreme words (0, u64::MAX, single bits, random) followed by a seeded PRNG tail; the stream is position ids 0..n. After every add (large cases: at a stride plus all phase borders): reservoir().len() == min(n,k), every item < n, no position twice, prefix order while n <= k, i() == n, is_empty iff n == 0, no panic. Non-trivial: n > 4k (all three phases) or a script containing 0 / u64::MAX words. Distinct = hash of the case; evaluations = cases + validations.");
     ctx.run_regressions(&[&C18]);
     let t = ctx.tier;
-    ctx.run_random(&C18, t.pick(3_000_000, 20_000_000), move || strategy(t));
+    ctx.run_random(&C18, t.pick(3_000_000, 2_000_000), move || strategy(t));
     ctx.require_class("validity", "all_three_phases", 0.2);
     ctx.require_class("validity", "extreme_rng_words", 0.3);
 }
